@@ -11,7 +11,7 @@ PROPS = {
         technique="contract-based deductive verification (AST->VC, z3) of the Hypergraph methods + bounded run-time contract checking against a ghost model",
         text=("Every mutator and the main queries of Hypergraph carry requires/ensures/frame/raises contracts over the abstract view "
               "(V, E, W, M, NM, incidence multiplicities) and the representation invariant; the obligations are discharged for all "
-              "inputs, sizes and histories (induction over the history via wf). Functions outside the verified subset are covered by "
+              "inputs and sizes; the induction over the history (per-operation refinement => every history refines) is history_refines of lean/Refine.lean, re-checked on every run. Functions outside the verified subset are covered by "
               "the bounded tier only, so the property as a whole is claimed as exploration with the discharged obligations reported."),
         design_ref="DESIGN.md §7 C01",
         assumptions=[],
@@ -53,8 +53,8 @@ PROPS.update({
                       "set containing n and closed under sharing a filtered hyperedge; _bfs is proved to return exactly that set (while-loop invariant over a queue modelled as a bag), "
                       "connected_components to return each class exactly once, and the six wrappers plus is_isolated/isolated_nodes to be consistent with that partition under the SAME filter. "
                       "That the classes of a symmetric relation are equal or disjoint and stay inside the node set needs induction: both lemmas are proved in Lean from the three definitional "
-                      "axioms (lean/Comp.lean, re-checked on every run). Termination, degree_distribution, the degree-sum identity and the other containers' sequences are left to the bounded "
-                      "tier, so the property as a whole is claimed as exploration."),
+                      "axioms (lean/Comp.lean, re-checked on every run); the identity 'degrees sum to the total size' is the double-counting lemma degree_sum of lean/Refine.lean over the verified degree contract. "
+                      "Termination is not proved; the property as a whole is claimed as exploration."),
                 design_ref="DESIGN.md §7 C08", assumptions=["termination of _bfs is not proved", "which element deque.popleft() returns is not modelled (the result is proved for every choice)"]),
     "C09": _b("bounded run-time contract checking of every matrix/tensor function entry by entry against the definition under the returned mapping",
               "scipy.sparse / LabelEncoder code is outside the deductive engine; all hypergraphs on <= 4 nodes (six label/weight variants), all temporal hypergraphs with <= 3 timed "
@@ -120,6 +120,36 @@ PROPS.update({
     "C20": _b("bounded run-time contract checking of the centralities against networkx on independently built projections, expm, and eigen-equation residuals",
               "Floating point and networkx delegation: bounded exploration only. CEC/HEC are judged only where an independent long-run iteration converges.", "DESIGN.md §7 C20"),
 })
+
+# ---- texts brought up to date in the fourth session (functions verified since: projections, signature vector, generators, chain step,
+# transition matrix, s-centralities); they replace the entries above
+_NEW = {
+    'C10': dict(level="exploration",
+          technique='contract-based deductive verification (AST->VC, z3) of clique_projection, line_graph and directed_line_graph (both distances, weighted or not) over an assumed networkx contract, and of the similarity kernels + bounded run-time contract checking of every projection and the simplicial complex against set-builder definitions',
+          text='clique_projection (link iff two different nodes share a hyperedge; documented vertex set), line_graph (id table a bijection onto the hyperedges; link iff different, sharing a node and similarity >= s; weight = similarity or 1) and directed_line_graph (arc e->f iff e != f and similarity of target(e) and source(f) >= s) are proved for all hypergraphs, thresholds and both distance functions, through loop invariants over the real nested loops; intersection / jaccard_similarity / jaccard_distance for all sets. networkx is modelled by an assumed contract; bipartite_projection and simplicial_complex are outside the subset. Every clause of the statement is evaluated on all small hypergraphs of a stated scope and on seeded random ones for all 12 (distance, threshold, weighted) configurations.',
+          design_ref='DESIGN.md §7 C10', assumptions=['networkx Graph / DiGraph are modelled by an assumed library contract (vertex set, set of ordered pairs, weight attribute)', "the lists stored in line_graph's dict `adj` are enumerations of their bags (positions exist, are injective on duplicate-free lists); the enumeration is a function of (dict value, key)"]),
+    'C12': dict(level="exploration",
+          technique='contract-based deductive verification (AST->VC, z3) of in/out degree, their sequences, the exact, strong and weak reciprocity and the hyperedge signature vector + bounded run-time contract checking of all of them, also on edited objects',
+          text='in_degree/out_degree(_sequence) are proved equal to the cardinality of the set of (filtered) hyperedges in which the node is a source / target. exact_, strong_ and weak_reciprocity are proved to return, for every size in 2..max, (number of in-range hyperedges of that size satisfying the definition) divided by (number of hyperedges of that size), 0 where there is none (fold-defined counts; the quotient is uninterpreted, so the [0,1] range and exact <= strong <= weak are not derived). hyperedge_signature_vector is proved to put into cell (s, t) of the flattened (m-1) x (m-1) table the number of hyperedges with s sources and t targets among those of total size <= m, with the default bound and an explicit one (numpy by an assumed contract). The inequalities and the cell sum are checked against literal definitions on all directed hypergraphs of a stated small scope, also after count-preserving edits of the same object.',
+          design_ref='DESIGN.md §7 C12', assumptions=['numpy arrays (np.zeros, a[i, j] += 1, flatten, np.array) are modelled by an assumed library contract']),
+    'C14': dict(level="exploration",
+          technique='contract-based deductive verification (AST->VC, z3) of random_hypergraph, random_uniform_hypergraph and add_random_edge / add_random_edges for every outcome of random.sample + bounded run-time contract checking of all generators over a parameter grid and many seeds',
+          text='random_hypergraph / random_uniform_hypergraph are proved, whatever random.sample returns, to yield an unweighted hypergraph with exactly the nodes 0..n-1, only duplicate-free hyperedges of requested sizes over them, at most the requested number per size and at least one when one was requested. add_random_edge(s), in place and on a copy, are proved to insert only hyperedges of the requested size over existing nodes and to leave everything else intact. Termination of the drawing loops is not proved. Same-seed reproducibility, scale-free, activity-driven and the shuffles (numpy draws) are evaluated for every parameter combination of a stated grid and seeds 0..19 (quick) / 0..199 (thorough).',
+          design_ref='DESIGN.md §7 C14', assumptions=['random.sample is havoc within its documented contract; termination of the drawing loops is not proved']),
+    'C16': dict(level="exploration",
+          technique="contract-based deductive verification (AST->VC, z3; one lemma in Lean) of the chain step _mcmc_step, the pairwise-reshuffle kernel and the degree table for every outcome of the random draws + bounded run-time contract checking of the sampler's outputs over configurations, burn-in/thinning lengths and seeds",
+          text="The kernel preserves both sizes, the union and the intersection of the two hyperedges for every draw; one chain step (_mcmc_step), for every pair of positions, every reshuffle and either accept/reject outcome, keeps the length of the configuration, the size at every position and the number of hyperedges each node occurs in (fold-defined count, point-update lemma proved in Lean), so conditioned degrees and size counts are carried through the chain; the degree table maps each occurring degree to exactly the nodes having it. The acceptance numerics are declared opaque. sample / _match_sequences / _extract_hye are numpy Generator and iterator code: every sampled hypergraph is checked for the statement's clauses, the conditioning clauses on all initial hypergraphs of a small scope (incl. a maximum size below the largest initial hyperedge) and on random sequences; same seed => same samples.",
+          design_ref='DESIGN.md §7 C16', assumptions=['hye_list_to_binary_incidence, HyMMSBM.poisson_params, HyMMSBM.log_kappa and _transition_prob are declared opaque in _mcmc_step: assumed not to modify the chain state (they receive tuples)', 'rng.choice / rng.random are havoc within their documented contracts']),
+    'C18': dict(level="exploration",
+          technique='contract-based deductive verification (AST->VC, z3) of transition_matrix over an assumed numpy contract + bounded run-time contract checking of the random-walk operators (exact rationals as oracle) and of the contagion (exact synchronous reference for rates in {0,1})',
+          text='transition_matrix is proved to return the N x N table whose entry (i, j) is wsum(i, j) divided by the row sum of the table of all wsum(i, .), wsum adding (size - 1) over the hyperedges containing both i and j, and to raise AssertionError exactly when the hypergraph is not connected (labels 0..N-1 required). The quotient is uninterpreted, so row-stochasticity, the stationary state, densities, sampled walks and the contagion are bounded exploration over all connected hypergraphs on <= 5 nodes and all initial conditions, horizons and rate triples of a stated grid.',
+          design_ref='DESIGN.md §7 C18', assumptions=['numpy: np.zeros, a[i, j] += x, np.matrix, a.sum(axis=1), matrix / column, sparse.csr_matrix are modelled by an assumed library contract; the quotient is uninterpreted']),
+    'C20': dict(level="exploration",
+          technique='contract-based deductive verification (AST->VC, z3) of s_betweenness / s_closeness on top of the verified line_graph, networkx centralities uninterpreted + bounded run-time contract checking of all centralities against networkx on independently built projections, expm, and eigen-equation residuals',
+          text="s_betweenness and s_closeness are proved to return exactly one value per hyperedge, namely networkx's betweenness / closeness of the vertex that the (verified) s-line graph's id table assigns to it. The node versions (bipartite projection), the temporal averages, the sub-hypergraph centrality and CEC / HEC are floating point and networkx delegation: bounded exploration; CEC/HEC are judged only where an independent long-run iteration converges.",
+          design_ref='DESIGN.md §7 C20', assumptions=['nx.betweenness_centrality / nx.closeness_centrality are uninterpreted functions of the graph; networkx graphs by the assumed contract of C10']),
+}
+PROPS.update(_NEW)
 
 NOT_APPLICABLE = {}
 NOT_REACHED = "not reached yet in the time available (planned, see DESIGN.md §7)"
